@@ -129,5 +129,92 @@ def derivative_search(ctx, budget, honesty):
             if not err <= K_EST * est + FLOOR[(m, n)] * S:
                 ctx.violation('true error exceeds %g x error_estimate + rounding floor' % K_EST, got=v, error=err, error_estimate=est,
                               floor=FLOOR[(m, n)] * S, signature=sig, **rep)
+    if honesty:
+        stationary_single_estimate(ctx, max(20, budget // 8))
+    else:
+        shared_generator_probe(ctx, max(6, budget // 60))
     ctx.notes.append('worst ratio / envelope per (method, n) on this run: %s'
                      % {('%s,%d' % k): float('%.2g' % v) for k, v in sorted(worst.items())})
+
+
+def stationary_single_estimate(ctx, budget):
+    """Honesty of the estimate where only one difference quotient is available (a scalar step: one step, no extrapolation)
+    at a stationary point: g = f - f'(x0) (x - x0) has g'(x0) = 0, so an estimate that is relative to the computed value
+    collapses while the truncation error h |f''| / 2 stays.  First derivative, forward / backward / central, step 1e-7..1e-5."""
+    import numdifftools as nd
+    from harness.exprs import X
+    rng = ctx.rng
+    EPS = 2.0 ** -52
+    done = skipped = 0
+    worst = 0.0
+    for _ in range(budget):
+        tree, x, d = gen_program(rng, 4)
+        if abs(d[2]) > 1e4 * max(1.0, abs(d[0])) or abs(d[3]) > 1e6 * max(1.0, abs(d[0])):
+            skipped += 1
+            continue
+        g = Node('sub', (tree, Node('scale', (Node('shift', (X,), const=-x),), const=d[1])))
+        m = rng.choice(['forward', 'backward', 'central'])
+        h = 10.0 ** rng.uniform(-7, -5)
+        order = 1 if m != 'central' else 2
+        rep = dict(program=str(g), x=x, method=m, n=1, order=order, step=h, exact=0.0)
+        ctx.tried(('stationary', m, str(tree), x, h))
+        try:
+            with warnings.catch_warnings():
+                warnings.simplefilter('ignore')
+                val, info = nd.Derivative(g, n=1, method=m, order=order, step=h, full_output=True)(x)
+        except Exception as ex:
+            ctx.violation('Derivative raised %r' % ex, **rep)
+            continue
+        v, est = float(val), float(info.error_estimate)
+        # rounding of the single quotient: eps * (|f| + |f'| |x|) / h, in units of the local scale of f
+        S0 = max(abs(d[0]), abs(d[1]) * max(abs(x), 1.0), 1e-300)
+        floor = 100.0 * EPS * S0 / h
+        err = abs(v)
+        done += 1
+        worst = max(worst, err / (K_EST * est + floor)) if math.isfinite(est) and est >= 0 else float('inf')
+        if not (math.isfinite(est) and est >= 0 and err <= K_EST * est + floor):
+            ctx.violation('true error exceeds %g x error_estimate + rounding floor (single difference quotient at a stationary point)' % K_EST,
+                          got=v, error=err, error_estimate=est, floor=floor, **rep)
+    ctx.notes.append('single-estimate / stationary-point probes: %d run, %d skipped (|f\'\'| or |f\'\'\'| beyond 1e4 / 1e6 x |f|), worst err/(K est + floor) = %.3g'
+                     % (done, skipped, worst))
+
+
+def shared_generator_probe(ctx, rounds):
+    """One step-generator object handed to several Derivative objects of different n (and one Derivative whose n is changed):
+    a legitimate configuration of C01 — the generator is the documented default of the complex-step methods, only shared —
+    whose results must stay inside the same envelope as with a fresh generator per object."""
+    import numdifftools as nd
+    from numdifftools.step_generators import MinStepGenerator
+    rng = ctx.rng
+    for _ in range(rounds):
+        m = rng.choice(['complex', 'multicomplex'])
+        order = rng.randint(1, 8)
+        tree, x, d = gen_program(rng, 8)
+        if m == 'multicomplex' and (big_hyperbolic_argument(tree, x) or uses(tree, ('arcsin', 'arccos', 'arctan'))):
+            continue
+        shared = MinStepGenerator()
+        ns = list(range(1, NMAX[m] + 1))
+        rng.shuffle(ns)
+        reuse_object = rng.random() < 0.5
+        obj = None
+        for n in ns:
+            rep = dict(program=str(tree), x=x, method=m, n=n, order=order, step='one MinStepGenerator() shared by the sequence n=%s%s'
+                       % (ns, ', one Derivative object with n reassigned' if reuse_object else ''), exact=d[n])
+            ctx.tried(('shared', m, order, str(tree), x, n))
+            try:
+                with warnings.catch_warnings():
+                    warnings.simplefilter('ignore')
+                    if reuse_object and obj is not None:
+                        obj.n = n
+                    else:
+                        obj = nd.Derivative(tree, n=n, method=m, order=order, step=shared, full_output=True)
+                    val, info = obj(x)
+            except Exception as ex:
+                ctx.violation('Derivative raised %r' % ex, **rep)
+                break
+            S = local_scale(d, n, n + 4)
+            err = abs(float(val) - d[n]) if math.isfinite(float(val)) else float('inf')
+            if not err / S <= ENV[(m, n)]:
+                ctx.violation('Derivative is outside the accuracy envelope of (%s, n=%d) when its step generator is shared' % (m, n),
+                              got=float(val), error=err, local_scale=S, ratio=err / S, envelope=ENV[(m, n)], **rep)
+                break
